@@ -89,6 +89,7 @@ var ruleName = map[string]string{
 	"rs": "snippet-scope-required",
 	"rm": "include/module-load-failed",
 	"rd": "subroutine/duplicated",
+	"rv": "deprecated",
 }
 var sevName = map[string]string{"ERROR": "Error", "WARNING": "Warning", "INFO": "Info"}
 
@@ -134,6 +135,7 @@ var layoutStmts = map[string][3]string{
 
 // moduleFiles writes the module(s) of the i-th include statement and tells whether main may call its subroutine
 func moduleFiles(f map[string]string, i int, inc lcInc) {
+	inc0 := inc
 	name := fmt.Sprintf("mod%d", i)
 	good := fmt.Sprintf("set req.http.M%d = \"1\";", i)
 	diag := fmt.Sprintf("set req.http.M%d = std.itoa(0, 1, 2);", i)
@@ -150,6 +152,22 @@ func moduleFiles(f map[string]string, i int, inc lcInc) {
 		f[name+".vcl"] = wrap(diag)
 	case "syntax":
 		f[name+".vcl"] = wrap("set = ;")
+	case "deep_syntax_if", "deep_syntax_else", "deep_diag_if", "deep_diag_else", "deep_warn_if", "deep_warn_else":
+		// a statement module that includes the inner module from an if / else block
+		inc := fmt.Sprintf("  include \"%s_inner\";\n", name)
+		if strings.HasSuffix(inc0.Kind, "_if") {
+			f[name+".vcl"] = fmt.Sprintf("if (req.http.D%d) {\n%s}\n%s\n", i, inc, good)
+		} else {
+			f[name+".vcl"] = fmt.Sprintf("if (req.http.D%d) {\n  set req.http.K%d = \"1\";\n} else {\n%s}\n%s\n", i, i, inc, good)
+		}
+		switch {
+		case strings.HasPrefix(inc0.Kind, "deep_syntax"):
+			f[name+"_inner.vcl"] = "set = ;\n"
+		case strings.HasPrefix(inc0.Kind, "deep_diag"):
+			f[name+"_inner.vcl"] = fmt.Sprintf("set req.http.I%d = std.itoa(0, 1, 2);\n", i)
+		default:
+			f[name+"_inner.vcl"] = fmt.Sprintf("set req.http.V%d = re.group.1;\n", i)
+		}
 	case "nest":
 		f[name+".vcl"] = fmt.Sprintf("include \"%s_inner\";\n", name) + wrap(good)
 		if inc.At == "root" {
@@ -180,6 +198,19 @@ func files(p lcProg) map[string]string {
 			}
 		}
 	}
+	// an include statement at a statement-level position
+	stmtInclude := func(i int, at, indent string) string {
+		inc := fmt.Sprintf("include \"mod%d\";\n", modOf(i))
+		switch at {
+		case "ifblock":
+			return fmt.Sprintf("%sif (req.http.S%d) {\n%s  %s%s}\n", indent, i+1, indent, inc, indent)
+		case "elseblock":
+			return fmt.Sprintf("%sif (req.http.S%d) {\n%s  set req.http.T%d = \"1\";\n%s} else {\n%s  %s%s}\n", indent, i+1, indent, i+1, indent, indent, inc, indent)
+		case "case":
+			return fmt.Sprintf("%sswitch (req.http.S%d) {\n%scase \"a\":\n%s  %s%s  break;\n%s}\n", indent, i+1, indent, indent, inc, indent, indent)
+		}
+		return indent + inc // "sub", "top"
+	}
 	st := layoutStmts[p.Layout]
 	if p.Layout == "" {
 		st = layoutStmts["plain"]
@@ -199,6 +230,9 @@ func files(p lcProg) map[string]string {
 		}
 		if has(p, "X") {
 			b.WriteString("// falco-ignore-next-line\nset req.http.Y = std.itoa(req.http.bar);\n")
+		}
+		for i, inc := range p.Incs {
+			b.WriteString(stmtInclude(i, inc.At, ""))
 		}
 	default:
 		b.WriteString("backend example { .host = \"example.com\"; }\n")
@@ -225,8 +259,8 @@ func files(p lcProg) map[string]string {
 			b.WriteString(st[2])
 		}
 		for i, inc := range p.Incs {
-			if inc.At == "sub" {
-				fmt.Fprintf(&b, "  include \"mod%d\";\n", modOf(i))
+			if inc.At != "root" {
+				b.WriteString(stmtInclude(i, inc.At, "  "))
 			}
 		}
 		b.WriteString("}\nsub vcl_deliver {\n")
@@ -375,12 +409,39 @@ func runFalco(falco, dir string, args []string) obs {
 	return o
 }
 
+var includeLine = regexp.MustCompile(`(?m)^[ \t]*include "([a-z0-9_]+)";[ \t]*\n`)
+
+// inlined returns the program with every module written in place of its include statement (modules that do not
+// exist stay include statements).  It is what the fixtures are calibrated on: the statements yield the model's
+// diagnostics whatever the include machinery of the tree under test does.
+func inlined(f map[string]string) map[string]string {
+	main := f["main.vcl"]
+	for depth := 0; depth < 8; depth++ {
+		next := includeLine.ReplaceAllStringFunc(main, func(m string) string {
+			name := includeLine.FindStringSubmatch(m)[1]
+			if body, ok := f[name+".vcl"]; ok {
+				return body
+			}
+			return m
+		})
+		if next == main {
+			break
+		}
+		main = next
+	}
+	return map[string]string{"main.vcl": main}
+}
+
 func setup(c *lcCell, rng *rand.Rand) (string, error) {
+	return setupFiles(c, rng, files(c.Prog))
+}
+
+func setupFiles(c *lcCell, rng *rand.Rand, fs map[string]string) (string, error) {
 	dir, err := os.MkdirTemp("", "vhc04_")
 	if err != nil {
 		return "", err
 	}
-	for n, s := range files(c.Prog) {
+	for n, s := range fs {
 		if err := os.WriteFile(filepath.Join(dir, n), []byte(s), 0o644); err != nil {
 			return dir, err
 		}
@@ -419,17 +480,28 @@ func contract(falco string, c *lcCell) string {
 	res := ""
 	if c.ReqCountsDefined {
 		plain := lcCell{Prog: c.Prog, Ov: map[string]string{}, Flags: lcFlags{Json: true, Verb: 2, Vsrc: "cli"}}
-		dir, err := setup(&plain, rand.New(rand.NewSource(1)))
+		// calibrated on the program with its modules written in place: what the include machinery of the tree under
+		// test does with the same statements is the subject of the check, not of the contract
+		dir, err := setupFiles(&plain, rand.New(rand.NewSource(1)), inlined(files(c.Prog)))
 		if err == nil {
 			o := runFalco(falco, dir, args(&plain, dir))
-			var want []string
+			var want, got []string
+			// (the report for a module that does not exist cannot be written in place: it is left to the cells)
 			for _, d := range c.Linter {
-				want = append(want, ruleName[d.Rule]+"|"+sevName[d.Sev]+"|"+d.File+".vcl")
+				if d.Rule != "rm" {
+					want = append(want, ruleName[d.Rule]+"|"+sevName[d.Sev])
+				}
+			}
+			for _, d := range o.JsonRules {
+				if !strings.HasPrefix(d, ruleName["rm"]+"|") {
+					got = append(got, d[:strings.LastIndex(d, "|")])
+				}
 			}
 			sort.Strings(want)
+			sort.Strings(got)
 			// a binary that dies here is not a broken fixture: the replay of the program's cells reports the crash
-			if o.Crash == "" && strings.Join(want, ",") != strings.Join(o.JsonRules, ",") {
-				res = fmt.Sprintf("program %s: linter reports %v, model lists %v", key, o.JsonRules, want)
+			if o.Crash == "" && strings.Join(want, ",") != strings.Join(got, ",") {
+				res = fmt.Sprintf("program %s (modules written in place): linter reports %v, model lists %v", key, got, want)
 			}
 		} else {
 			res = err.Error()
